@@ -70,4 +70,33 @@ theorem src_PTPTime_eq (a b : Model.Ch11.IPTP) :
   unfold Gen.Src.Chapter11.PTPTime.__eq__ Model.Ch11.ptpEq
   by_cases h1 : a.2 = b.2 <;> by_cases h2 : a.1 = b.1 <;> simp [h1, h2]
 
+/-- `PTPTime.__add__` as written today = the model, for the attribute values of the wire format (32-bit seconds and
+    nanoseconds of both operands).  `addns % 1e9` and `addns // 1e9` are binary64 operations; they are exact on that
+    range (|addns| < 2^33; checked by the translator, which refuses the function otherwise); the ranges are
+    hypotheses of the generated definition itself. -/
+theorem src_PTPTime_add (a b : Model.Ch11.IPTP)
+    (ha1 : 0 ≤ a.1 ∧ a.1 ≤ 4294967295) (ha2 : 0 ≤ a.2 ∧ a.2 ≤ 4294967295)
+    (hb1 : 0 ≤ b.1 ∧ b.1 ≤ 4294967295) (hb2 : 0 ≤ b.2 ∧ b.2 ≤ 4294967295) :
+    Gen.Src.Chapter11.PTPTime.__add__ a.1 a.2 b.1 b.2 ha1 ha2 hb1 hb2 = Model.Ch11.ptpAdd a b := by
+  unfold Gen.Src.Chapter11.PTPTime.__add__ Model.Ch11.ptpAdd
+  simp only [pymod_of_pos _ _ (by decide : (0 : Int) ≤ 1000000000),
+    floordiv_of_pos _ _ (by decide : (0 : Int) ≤ 1000000000)]
+
+example : Gen.Src.Chapter11.PTPTime.__add__ 5 999999999 7 2 (by decide) (by decide) (by decide) (by decide)
+    = (13, 1) := by decide
+
+/-- `PTPTime.to_pinksheet_rtc` as written today = the model, for the attribute values of the wire format
+    (32-bit seconds and nanoseconds).  The `Decimal` operations are exact on that range (every intermediate result
+    has at most 20 digits; checked by the translator, which refuses the function otherwise); the range is a
+    hypothesis of the generated definition itself. -/
+theorem src_PTPTime_to_pinksheet_rtc (s ns : Nat) (hs : s ≤ 4294967295) (hns : ns ≤ 4294967295) :
+    Gen.Src.Chapter11.PTPTime.to_pinksheet_rtc s ns ⟨by omega, by omega⟩ ⟨by omega, by omega⟩
+      = (Model.Ch11.pinksheet s ns : Int) := by
+  unfold Gen.Src.Chapter11.PTPTime.to_pinksheet_rtc Model.Ch11.pinksheet
+  have h1 : ((s : Int) * 1000000000 + (ns : Int)) = ((s * 1000000000 + ns : Nat) : Int) := by omega
+  simp only [h1, floordiv_natCast_lit, Int.reduceSub, band_natCast_lit]
+
+example : Gen.Src.Chapter11.PTPTime.to_pinksheet_rtc 1700000000 999999999 (by decide) (by decide)
+    = 111501407360639 := by decide
+
 end Acra.Props.C15
